@@ -967,20 +967,28 @@ def check_c14(pid, tier, seed, rep):
     # alias allocator: real TypeConverter vs model
     rnd = random.Random(seed * 17 + 1)
     drv = build_overlay_tool("veriftypeconv", "typeconv_main.go")
-    names = ["config", "config_1", "config_2", "config_1_1", "v1", "v2", "sink", "log", "io"]
-    paths = ["a/config", "b/config", "c/config", "x/config_1", "y/config_1", "k8s/v1", "api/v1", "m/v2", "io", "log", "z/log", "g/sink", "h/sink", "q/config_2"]
+    names = ["config", "config_1", "config_2", "config_1_1", "v1", "v2", "sink", "log", "io", "kessoku"]
+    paths = ["a/config", "b/config", "c/config", "x/config_1", "y/config_1", "k8s/v1", "api/v1", "m/v2", "io", "log", "z/log", "g/sink", "h/sink", "q/config_2", "w/kessoku"]
     hs = []
+    reserved = []
     for i in range(120 if tier == "quick" else 2000):
         h = []
         for _ in range(rnd.randint(1, 14)):
             p_ = rnd.choice(paths)
             h.append([p_, p_.split("/")[-1] if rnd.random() < 0.7 else rnd.choice(names)])
         hs.append(h)
-    rc, out, err = vlib.run([drv], input=json.dumps(hs), timeout=300)
+        # names the source package declares at package level (reserved by NewTypeConverter, like "kessoku")
+        reserved.append(sorted(rnd.sample(names[:9], rnd.choice([0, 0, 1, 2, 3]))))
+    rc, out, err = vlib.run([drv], input=json.dumps([dict(reserved=r_, reqs=h) for r_, h in zip(reserved, hs)]), timeout=300)
     if rc != 0:
         raise RuntimeError("typeconv driver failed: " + err[-500:])
     outs = json.loads(out)
-    for h, o in zip(hs, outs):
+    for h, o, r_ in zip(hs, outs, reserved):
+        for a in o:
+            if a in r_ or (a == "kessoku"):
+                nviol += 1
+                rep.violation("alias-reserved", dict(history=h, reserved=r_, aliases=o), "an import was given the reserved name %s (package-level identifiers %s, kessoku)" % (a, r_))
+                break
         amap = {}
         for (p_, d_), a in zip(h, o):
             if amap.setdefault(p_, a) != a:
@@ -998,9 +1006,10 @@ def check_c14(pid, tier, seed, rep):
     path = os.path.join(vlib.scratch(), "cases_tc.v")
     with open(path, "w") as f:
         f.write("From Coq Require Import String List. Import ListNotations. Open Scope string_scope.\nRequire Import TypeConv.\n")
-        f.write("Definition cases : list (nat * (list (string * string) * list string)) := [\n" + ";\n".join(
-            "(%d, ([%s], [%s]))" % (i, "; ".join("(%s, %s)" % (cs(a), cs(b)) for a, b in h), "; ".join(cs(x) for x in o)) for i, (h, o) in enumerate(zip(hs, outs))) + "].\n")
-        f.write("Definition M := Eval vm_compute in tcv_mismatches cases.\nPrint M.\n")
+        f.write("Definition cases : list (nat * (list string * list (string * string) * list string)) := [\n" + ";\n".join(
+            "(%d, ([%s], [%s], [%s]))" % (i, "; ".join(cs(x) for x in r_ + ["kessoku"]), "; ".join("(%s, %s)" % (cs(a), cs(b)) for a, b in h), "; ".join(cs(x) for x in o))
+            for i, (h, o, r_) in enumerate(zip(hs, outs, reserved))) + "].\n")
+        f.write("Definition M := Eval vm_compute in tcv_mismatches_reserved cases.\nPrint M.\n")
     rc, o2 = vlib.coqc_file(path, timeout=900)
     m = re.search(r"M\s*=\s*\[(.*?)\]\s*:\s*list nat", o2, re.S)
     mism = []
